@@ -72,6 +72,13 @@ func treeStore(p *core.Prog, st *ssa.Store) (isTree bool, field *types.Var, base
 		}
 		break
 	}
+	// a store through a pointer parameter (`*target = account`): the fields the
+	// callers take the address of
+	if prm, ok := addr.(*ssa.Parameter); ok && !isTree {
+		if fv := paramTreeField(p, prm); fv != nil {
+			return true, fv, prm
+		}
+	}
 	if !isTree {
 		// whole-object store through a pointer to a directives type
 		if pt, ok := st.Addr.Type().Underlying().(*types.Pointer); ok {
@@ -83,6 +90,52 @@ func treeStore(p *core.Prog, st *ssa.Store) (isTree bool, field *types.Var, base
 		}
 	}
 	return isTree, top, addr
+}
+
+// paramTreeField: prm is a pointer parameter and every call of its function in
+// the module passes the address of a field of a directives (syntax tree)
+// struct: returns that field when all callers agree on Booking.Credit /
+// Booking.Debit (either of them), else the first field found; nil if some
+// caller passes something else.
+func paramTreeField(p *core.Prog, prm *ssa.Parameter) *types.Var {
+	fn := prm.Parent()
+	idx := -1
+	for i, q := range fn.Params {
+		if q == prm {
+			idx = i
+		}
+	}
+	n := p.CG.Nodes[fn]
+	if idx < 0 || n == nil {
+		return nil
+	}
+	var res *types.Var
+	for _, e := range n.In {
+		if !p.InModule(e.Caller.Func) || e.Site == nil {
+			continue
+		}
+		args := e.Site.Common().Args
+		if idx >= len(args) {
+			return nil
+		}
+		fa, ok := args[idx].(*ssa.FieldAddr)
+		if !ok {
+			return nil
+		}
+		fv := core.FieldOf(fa)
+		if fv == nil || fv.Pkg() == nil || fv.Pkg().Path() != pkgDirectives {
+			return nil
+		}
+		if res == nil {
+			res = fv
+		} else if res != fv {
+			// Credit at one site, Debit at the other: both are the booking's accounts
+			if !((res.Name() == "Credit" || res.Name() == "Debit") && (fv.Name() == "Credit" || fv.Name() == "Debit")) {
+				return nil
+			}
+		}
+	}
+	return res
 }
 
 // RuleCInfer — write set of `knut infer`: the only stores into the parsed
@@ -148,7 +201,7 @@ func RuleCInfer(c *core.Ctx) {
 		})
 	}
 	c.Note("%s: %d functions in scope, %d stores into tree objects", rule, len(scope), nStores)
-	c.Floor(rule, 2)
+	c.Floor(rule, 1)
 }
 
 // placeholderGuard: st is dominated by the true edge of an `a == b` test in
@@ -181,7 +234,43 @@ func placeholderGuard(p *core.Prog, st *ssa.Store, fv, placeholder *types.Var) b
 			w.Origin(v)
 			return found
 		}
-		if (has(bo.X, fv) && has(bo.Y, placeholder)) || (has(bo.Y, fv) && has(bo.X, placeholder)) {
+		viaParam := func(v ssa.Value) bool {
+			prm, ok := st.Addr.(*ssa.Parameter)
+			if !ok {
+				return false
+			}
+			return originSet(p, v, 0)[prm]
+		}
+		if ((has(bo.X, fv) || viaParam(bo.X)) && has(bo.Y, placeholder)) || ((has(bo.Y, fv) || viaParam(bo.Y)) && has(bo.X, placeholder)) {
+			return true
+		}
+		// `!=` with the store on the false edge is the same guard
+	}
+	for _, b := range fn.Blocks {
+		iff, ok := b.Instrs[len(b.Instrs)-1].(*ssa.If)
+		if !ok {
+			continue
+		}
+		bo, ok := iff.Cond.(*ssa.BinOp)
+		if !ok || bo.Op != token.NEQ || !core.EdgeDominates(b, b.Succs[1], st.Block()) {
+			continue
+		}
+		hasF := func(v ssa.Value, f *types.Var) bool {
+			for x := range originSet(p, v, 0) {
+				if fa, ok := x.(*ssa.FieldAddr); ok && core.FieldOf(fa) == f {
+					return true
+				}
+				if fl, ok := x.(*ssa.Field); ok && core.FieldOf(fl) == f {
+					return true
+				}
+			}
+			return false
+		}
+		viaParam := func(v ssa.Value) bool {
+			prm, ok := st.Addr.(*ssa.Parameter)
+			return ok && originSet(p, v, 0)[prm]
+		}
+		if ((hasF(bo.X, fv) || viaParam(bo.X)) && hasF(bo.Y, placeholder)) || ((hasF(bo.Y, fv) || viaParam(bo.Y)) && hasF(bo.X, placeholder)) {
 			return true
 		}
 	}
@@ -207,17 +296,48 @@ func RuleCInferFresh(c *core.Ctx) {
 		return
 	}
 	n := 0
+	// functions that store through a pointer parameter bound to Credit/Debit
+	paramStores := map[*ssa.Function]int{}
 	for fn := range scope {
-		var stores []*ssa.Store
 		core.EachInstr(fn, func(ins ssa.Instruction) {
 			if st, ok := ins.(*ssa.Store); ok {
-				if isTree, fv, _ := treeStore(p, st); isTree && (fv == credit || fv == debit) {
-					stores = append(stores, st)
+				if prm, ok := st.Addr.(*ssa.Parameter); ok {
+					if isTree, fv, _ := treeStore(p, st); isTree && (fv == credit || fv == debit) {
+						for i, q := range fn.Params {
+							if q == prm {
+								paramStores[fn] = i
+							}
+						}
+					}
 				}
 			}
 		})
-		for _, st := range stores {
-			fa := st.Addr.(*ssa.FieldAddr)
+	}
+	type event struct {
+		at ssa.Instruction
+		fa *ssa.FieldAddr
+	}
+	for fn := range scope {
+		var stores []event
+		core.EachInstr(fn, func(ins ssa.Instruction) {
+			switch x := ins.(type) {
+			case *ssa.Store:
+				if fa, ok := x.Addr.(*ssa.FieldAddr); ok {
+					if isTree, fv, _ := treeStore(p, x); isTree && (fv == credit || fv == debit) {
+						stores = append(stores, event{x, fa})
+					}
+				}
+			case *ssa.Call:
+				// a call of a helper that replaces the account its pointer argument designates
+				if idx, ok := paramStores[x.Call.StaticCallee()]; ok && idx < len(x.Call.Args) {
+					if fa, ok := x.Call.Args[idx].(*ssa.FieldAddr); ok {
+						stores = append(stores, event{x, fa})
+					}
+				}
+			}
+		})
+		for _, ev := range stores {
+			st, fa := ev.at, ev.fa
 			fv := core.FieldOf(fa)
 			n++
 			// loads of the same field (any sub-field of it) executed before the store
@@ -323,7 +443,7 @@ func before(a, b ssa.Instruction) bool {
 
 // derivesFromLoad: v is computed from load l; phi edges are followed only
 // from predecessors that the store can reach without re-executing l.
-func derivesFromLoad(v ssa.Value, l ssa.Value, st *ssa.Store, avoid map[*ssa.BasicBlock]bool, seen map[ssa.Value]bool) bool {
+func derivesFromLoad(v ssa.Value, l ssa.Value, st ssa.Instruction, avoid map[*ssa.BasicBlock]bool, seen map[ssa.Value]bool) bool {
 	if v == l {
 		return true
 	}
@@ -435,7 +555,7 @@ func RuleKZeroFlow(c *core.Ctx) {
 				"the stored account can be built from the empty-string default (no candidate found) and nothing tests for that before the store: the booking gets an empty account and the output no longer parses")
 		})
 	}
-	c.Floor(rule, 2)
+	c.Floor(rule, 1)
 }
 
 // foundFlagGuard: the store is dominated by the true edge of a test on a
